@@ -7,7 +7,7 @@
 use crate::c13::*;
 use crate::common::*;
 
-fn c12_step(rng: &mut Rng, rec: &mut Recorder, sc: &mut Script) {
+pub fn c12_step(rng: &mut Rng, rec: &mut Recorder, sc: &mut Script) {
     let n = sc.n;
     let i = rng.below(n as u64) as usize;
     if rng.chance(1, 2) {
